@@ -730,10 +730,10 @@ func (f *FeaturesByID) fillPathSegments(point b6.FeatureID, path b6.FeatureID, s
 						if id.Value == point.Value && fb.NamespaceTable.Decode(ns) == point.Namespace {
 							pf = b6.WrapPhysicalFeature(f.newPathFromEncodedPath(fb, path.Value, &p), f)
 							position = i
-						} else if f.isGraphNode(id) {
+						} else if f.isGraphNode(fb, id) {
 							previous = i
 						}
-					} else if f.isGraphNode(id) {
+					} else if f.isGraphNode(fb, id) {
 						next = i
 						break
 					}
@@ -756,11 +756,14 @@ func (f *FeaturesByID) fillPathSegments(point b6.FeatureID, path b6.FeatureID, s
 // isGraphNode returns true if this point should be a node in the
 // network graph. We currently consider intersections and points with tags
 // as nodes.
-func (f *FeaturesByID) isGraphNode(point Reference) bool {
+func (f *FeaturesByID) isGraphNode(from *featureBlock, point Reference) bool {
 	paths := 0
+	// point is encoded with the namespace table of the block it's
+	// referenced from, which can differ from that of the point's block.
+	_, encoded := point.TypeAndNamespace.Split()
+	namespace := from.NamespaceTable.Decode(encoded)
 	for _, fb := range f.features[b6.FeatureTypePoint] {
-		_, ns := point.TypeAndNamespace.Split()
-		if fb.Namespaces[b6.FeatureTypePoint] == ns {
+		if ns, ok := fb.NamespaceTable.MaybeEncode(namespace); ok && fb.Namespaces[b6.FeatureTypePoint] == ns {
 			t, ok := fb.Map.FindFirst(point.Value)
 			if ok {
 				switch t.Tag {
